@@ -378,7 +378,7 @@ def run_corpus(case, rec=None):
     path, form = case
     tmp = tempfile.mkdtemp(prefix="verif-c01-")
     try:
-        pkg = O.Pkg.read(os.path.join(REPO, path))
+        pkg = O.Pkg.read(os.path.join(REPO, path))  # zip file or directory-form package
         # corpus decks may hold relationships whose target is absent (tolerated, C16): judged on the
         # package with those relationships removed from the expectation by `compare`'s reachability.
         reach, relmap, dangling = pkg.reachable()
@@ -409,6 +409,7 @@ def jobs(tier):
         decks = decks[::5]
     forms = ["zip", "stream", "dir"]
     cases = [[d, f] for d in decks for f in forms]
+    cases += [[d, f] for d in dir_packages() for f in forms]  # the repository's directory-form packages
     for i in range(8):
         js.append({"kind": "corpus", "cases": cases[i::8]})
     return js
